@@ -38,12 +38,14 @@ CHECKS = {
          "liveness is bounded (step budget 3e7 per run, calibrated >100x the largest clean run); close under a running caller violates the API contract and is not generated", "deterministic simulation: exact deadlock detection under seeded schedules"),
  "C10": ("exploration", "the concurrency workload widened to put/del/write/get/iterate/snapshot/release/flush/compact/property/approximate-sizes/backup/close-after-join runs in a ThreadSanitizer build in which only lcdb is instrumented: the scheduler's hand-off is invisible to TSan, so any pair of conflicting accesses that lcdb's own locks/atomics do not order is reported even though the threads ran one after the other; the same plans run under AddressSanitizer+UBSan for the memory-error half. Sensitivity was confirmed with a planted race (unlocked snapshot release).", "3.2, 7 C10",
          "a race is found when both accesses occur in one run (happens-before detector), in any order; weak-memory effects a race-free program cannot observe are out of scope", "deterministic simulation under ThreadSanitizer (hidden scheduler hand-off) and AddressSanitizer"),
+ "C12": ("fault_enumeration", "each plan is executed fault-free while every libc file call is counted per (call kind, file class); fault sites (open/creat, write, fsync, rename, unlink, close, mkdir, link, read, mmap, opendir x log/table/MANIFEST/CURRENT/temp/dir x ordinal; all ordinals when <=4, first/last/2 random otherwise) are then enumerated with ENOSPC/EIO/EMFILE/ENOENT/EACCES, one-shot or persistent, optionally after a partial write, plus short-write/short-read/EINTR noise; the plan is re-executed once per site (capped per plan), faults are cleared, the database is closed or killed, reopened and compared. Oracle: no call errs before a fault fired; reads are exact or report an error in a call that was failed; no crash, deadlock or sanitizer report; reopen succeeds; every acknowledged batch is present and contents are a fold of whole batches.", "6, 7 C12",
+         "'surfaces as an error status' is checked through its consequences (an acknowledged write is never lost); deliberately ignored failures (unlink of an obsolete file, close of a read-only file) are not required to surface; stat/access/lseek failures are outside the property's fault list", "deterministic simulation: per-call fault-site enumeration with reopen comparison"),
 }
 NOT_APPLICABLE = [
  ("C16", "pure function of (entries, options): no schedule, clock, crash or I/O fault to search; tables produced by simulated histories are decoded independently as part of C14/C11/C19 but C16 itself is not claimed"),
  ("C18", "totality/memory safety on arbitrary bytes is quantified over inputs only (fuzzing, not fault/schedule search); disk-producible damage is exercised under ASan+UBSan by C11 but C18 is not claimed"),
 ]
-WIP = [ "C11", "C12", "C15", "C19", "C20"]
+WIP = [ "C11", "C15", "C19", "C20"]
 
 def main():
     checks = []
